@@ -58,6 +58,15 @@ def Box.extend (b : Box α) (b2 : Option (Box α)) : Box α :=
     else if b.empty then ⟨b2.mn, b2.mx⟩
     else (b.extendPoint b2.mn).extendPoint b2.mx
 
+/-- `b.Extend(b)` — ONE pointer on both sides: `b2.Min` is copied before the first `extendPoint` call, but `b2.Max` is
+read after it and is then the receiver's updated `Max`.  For every box of values this is `b.extend (some b)`
+(`C04_extend_self_alias`); with a NaN side it is not (`Max` may have swallowed the NaN meanwhile). -/
+def Box.extendSelf (b : Box α) : Box α :=
+  if b.empty then b
+  else
+    let b1 := b.extendPoint b.mn
+    b1.extendPoint b1.mx
+
 /-- `b.Overlaps(b2)`: `!b.Empty() && !b2.Empty() &&` the four comparisons -/
 def Box.overlaps (b b2 : Box α) : Bool :=
   !b.empty && !b2.empty &&
